@@ -123,7 +123,9 @@ Fixpoint tp_day_loop (fuel : nat) (ranges : list (tp_dayrange * list (Z * Z))) (
   | S f => if tp_midnight r <=? e then tp_day_segs ranges r ++ tp_day_loop f ranges (r + 1) e else []
   end.
 
-Definition tp_loop_fuel (b e : Z) : nat := Z.to_nat ((e - b) / 3600 + 3).
+(* an upper bound on the number of iterations (a local day is longer than an hour); +5 covers the partial first and
+   last day and an offset change of less than 48 h between begin and end *)
+Definition tp_loop_fuel (b e : Z) : nat := Z.to_nat ((e - b) / 3600 + 5).
 
 Definition tp_script_func (ranges : list (tp_dayrange * list (Z * Z))) (b e : Z) : list tp_seg :=
   tp_day_loop (tp_loop_fuel b e) ranges (tp_local_day b) e.
